@@ -77,6 +77,46 @@ func token(o fsop) string {
 	}
 }
 
+// tokens of the suffix-file protocol (model SuffixProto): calls on <stream>.suffix / .suffix.tmp and the first
+// creation of a segment directory
+var reSegDir = regexp.MustCompile(`/final/[^/]+/[^/]+/(\d+)/?$`)
+var reSufVal = regexp.MustCompile(`"suffix":(\d+)`)
+
+func sufToken(o fsop, seenDir map[string]bool) string {
+	val := func() string {
+		if m := reSufVal.FindSubmatch(o.Data); m != nil {
+			return string(m[1])
+		}
+		return "0"
+	}
+	switch {
+	case o.Kind == "rename" && strings.HasSuffix(o.Path2, ".suffix"):
+		return "SufRename"
+	case strings.HasSuffix(o.Path, ".suffix.tmp"):
+		if o.Kind == "trunc" || o.Kind == "creat" {
+			return "SufTmpTrunc"
+		}
+		if o.Kind == "write" {
+			return "SufTmpWrite " + val()
+		}
+	case strings.HasSuffix(o.Path, ".suffix"):
+		if o.Kind == "trunc" || o.Kind == "creat" {
+			return "SufTruncate"
+		}
+		if o.Kind == "write" {
+			return "SufWriteInPlace " + val()
+		}
+	case o.Kind == "mkdir":
+		if m := reSegDir.FindStringSubmatch(o.Path); m != nil && !seenDir[o.Path] {
+			seenDir[o.Path] = true
+			return "SegDirCreate " + m[1]
+		}
+	}
+	return ""
+}
+
+var lastSuffixObs = -1 // value of the stream's suffix file in the replayed crash state (0 = absent or empty)
+
 var reNumBlocks = regexp.MustCompile(`"numBlocks":(\d+)`)
 
 func numBlocks(data []byte) string {
@@ -225,6 +265,15 @@ func driverMain() {
 		for i, o := range ops {
 			toks[i] = token(o)
 		}
+		sufToks := make([]string, len(ops))
+		seenDir := map[string]bool{}
+		nAllocs := 0
+		for i, o := range ops {
+			sufToks[i] = sufToken(o, seenDir)
+			if strings.HasPrefix(sufToks[i], "SegDirCreate") {
+				nAllocs++
+			}
+		}
 		// crash points
 		var ks []int
 		if cfg.Thorough() {
@@ -233,6 +282,12 @@ func driverMain() {
 			}
 		} else {
 			pick := map[int]bool{0: true, len(ops): true}
+			for i, t := range sufToks {
+				if strings.HasPrefix(t, "Suf") {
+					pick[i] = true
+					pick[i+1] = true
+				}
+			}
 			for i, t := range toks {
 				if strings.HasPrefix(t, "Sfm") || strings.HasPrefix(t, "Bsu") || strings.HasPrefix(t, "SstRename") || strings.HasPrefix(t, "Segmeta") {
 					pick[i] = true
@@ -276,10 +331,20 @@ func driverMain() {
 			sum.WriteCaseFile(cfg.Out, fmt.Sprintf("cases_protocol_%d", hi), "From SigM Require Import Base FlushProto FlushProtoCheck.\n", defs, "if check_protocol hist observed then [] else [O]", 1)
 		}
 		var cases []string
+		var sufObs []string
 		for _, k := range ks {
 			obs, ok := recoverAt(self, run1, hf, ops, k, sum, h)
 			if !ok {
 				continue
+			}
+			if lastSuffixObs >= 0 {
+				ks2 := 0
+				for _, t := range sufToks[:k] {
+					if t != "" {
+						ks2++
+					}
+				}
+				sufObs = append(sufObs, fmt.Sprintf("(%d, %d)", ks2, lastSuffixObs))
 			}
 			// model case: tokens of the prefix (protocol ops only) and the observed visible blocks
 			var tl []string
@@ -302,6 +367,19 @@ func driverMain() {
 			}
 		}
 		writeCases(cfg, sum, &caseShard, h, cases)
+		// suffix-file protocol: the traced calls must be the model's ops for nAllocs allocations, and in every crash state
+		// the file must hold what the model says (the restarted writer allocates that number next)
+		{
+			var tl []string
+			for _, t := range sufToks {
+				if t != "" {
+					tl = append(tl, "("+t+")")
+				}
+			}
+			defs := "Open Scope nat_scope.\nDefinition observed : list sop := " + vhlib.CoqListNL(tl) + ".\nDefinition obs : list (nat * nat) := " + vhlib.CoqListNL(sufObs) + ".\n"
+			sum.WriteCaseFile(cfg.Out, fmt.Sprintf("cases_suffix_%d", hi), "From SigM Require Import Base SuffixProto.\n", defs,
+				fmt.Sprintf("check_suffix true %d observed obs", nAllocs), len(sufObs)+1)
+		}
 		sum.Sample(map[string]interface{}{"history": h, "syscalls": len(ops), "crash_points": len(ks)})
 		if os.Getenv("C07_ONLY_K") != "" {
 			break
@@ -376,6 +454,17 @@ func recoverAt(self, run1, hf string, ops []fsop, k int, sum *vhlib.Summary, h h
 		if err := applyOp(o); err != nil {
 			sum.HarnessError(fmt.Sprintf("replay op %d (%s %s): %v", o.Line, o.Kind, o.Path, err))
 			return nil, false
+		}
+	}
+	lastSuffixObs = -1
+	if fs, _ := filepath.Glob(filepath.Join(run1, "data", "*", "suffix", "*", "*.suffix")); len(fs) <= 1 {
+		lastSuffixObs = 0
+		if len(fs) == 1 {
+			if b, err := os.ReadFile(fs[0]); err == nil {
+				if m := reSufVal.FindSubmatch(b); m != nil {
+					lastSuffixObs, _ = strconv.Atoi(string(m[1]))
+				}
+			}
 		}
 	}
 	// which steps had completed (markers are written by the worker after each step returns)
